@@ -217,10 +217,7 @@ pub fn bcf(b: &[u8]) -> Layout {
             }
             match bcf_typed(&b[..shared_end], q, &mut l, "bcf.info_key_descriptor") {
                 Some(e) => q = e,
-                None => {
-                    ok = false;
-                    break;
-                }
+                None => break,
             }
             match bcf_typed(&b[..shared_end], q, &mut l, "bcf.info_value_descriptor") {
                 Some(e) => q = e,
